@@ -1911,8 +1911,6 @@ val rec_of_text : mode -> (z * z) -> char list -> (recur option, cres) sum
 
 val ops_cli : (char list * char list rd) list
 
-val all_ops : (char list * char list rd) list
-
 type rtext =
 | RtOk of char list
 | RtOverflow
@@ -1966,5 +1964,7 @@ val sh_rec_key : rec_key -> char list
 val sh_reparse : mode -> recur -> char list -> char list
 
 val ops_rectext : (char list * char list rd) list
+
+val all_ops : (char list * char list rd) list
 
 val run_line : char list -> char list
